@@ -1,4 +1,4 @@
-use rusty_parser::{BuiltInSub, Statement, SubCall};
+use rusty_parser::{AsBareName, BareName, BuiltInSub, Expression, Expressions, Statement, SubCall};
 
 use crate::converter::common::{ConvertibleIn, ExprContext};
 use crate::core::{LintErrorPos, LinterContext};
@@ -6,11 +6,38 @@ use crate::core::{LintErrorPos, LinterContext};
 impl LinterContext {
     pub fn sub_call(&mut self, sub_call: SubCall) -> Result<Statement, LintErrorPos> {
         let (sub_name, args) = sub_call.into();
-        let converted_args = args.convert_in(self, ExprContext::Argument)?;
         let opt_built_in: Option<BuiltInSub> = BuiltInSub::parse_non_keyword_sub(sub_name.as_ref());
+        if opt_built_in == Some(BuiltInSub::CallAbsolute) {
+            // `CALL Name(args)` / `CALL Name` is the other spelling of `Name args`
+            // when Name is a SUB of the program
+            if let Some((name, call_args)) = self.as_call_of_user_sub(&args) {
+                return self.sub_call(SubCall::new(name, call_args));
+            }
+        }
+        let converted_args = args.convert_in(self, ExprContext::Argument)?;
         match opt_built_in {
             Some(b) => Ok(Statement::built_in_sub_call(b, converted_args)),
             None => Ok(Statement::sub_call(sub_name, converted_args)),
+        }
+    }
+
+    fn as_call_of_user_sub(&self, args: &Expressions) -> Option<(BareName, Expressions)> {
+        if args.len() != 1 {
+            return None;
+        }
+        let (name, call_args) = match &args[0].element {
+            Expression::FunctionCall(name, call_args) => (name, call_args.clone()),
+            Expression::Variable(name, _) => (name, vec![]),
+            _ => return None,
+        };
+        if !name.is_bare() {
+            return None;
+        }
+        let bare_name = name.as_bare_name().clone();
+        if self.subs.contains_key(&bare_name) {
+            Some((bare_name, call_args))
+        } else {
+            None
         }
     }
 }
